@@ -76,7 +76,7 @@ def main() -> int:
         steps = []
         for si in range(r.randint(1, 5)):
             di = r.randrange(len(families[fi]))
-            st = {"doc": families[fi][di], "meta": meta, "overwrite": r.random() < 0.6, "via": "cli" if r.random() < 0.3 else None, "_di": di}
+            st = {"doc": families[fi][di], "meta": meta, "overwrite": r.random() < 0.6, "via": (lambda u: "subprocess" if u < 0.06 else ("cli" if u < 0.32 else None))(r.random()), "_di": di}
             if not titled:
                 st["outdir_rel"] = "target/out"
             if si >= 1 and r.random() < 0.4:
@@ -121,6 +121,8 @@ def main() -> int:
         shape = []
         for si, (st, obs) in enumerate(zip(steps, res["steps"])):
             ev.count("commands")
+            if st.get("via") == "subprocess":
+                ev.count("real_cli_processes")
             w = {"history": [{"doc_index": s.get("_di"), "meta": s["meta"], "overwrite": s["overwrite"], "via": s.get("via"), "outdir_rel": s.get("outdir_rel"), "user_files": list((s.get("user_files") or {}))} for s in steps[: si + 1]],
                  "kind": kind, "step": si, "doc": st["doc"] if kind == "hostile" else None, "family_docs": [families[a][s["_di"]] for s in steps[: si + 1]] if kind == "family" else None}
             if obs.get("exc"):
@@ -146,10 +148,10 @@ def main() -> int:
                 if not (pth == rel_root or pth.startswith(rel_root + "/")) and before.get(pth) != after.get(pth):
                     vd.violation(f"outside_changed:{kind}", f"{pth} outside the output directory changed ({before.get(pth)} -> {after.get(pth)})", w)
             existed = any(p.startswith(rel_root + "/") for p in before)
-            errored = (obs.get("cli_exit") not in (None, 0)) if st.get("via") == "cli" else any(d["level"] == "ERROR" for d in obs.get("diags") or [])
+            errored = (obs.get("cli_exit") not in (None, 0)) if st.get("via") in ("cli", "subprocess") else any(d["level"] == "ERROR" for d in obs.get("diags") or [])
             inner_before = {p[len(rel_root) + 1:]: h for p, h in before.items() if p.startswith(rel_root + "/")}
             inner_after = {p[len(rel_root) + 1:]: h for p, h in after.items() if p.startswith(rel_root + "/")}
-            shape.append(("ow" if st["overwrite"] else "no") + ("E" if existed else "N") + ("c" if st.get("via") == "cli" else "a"))
+            shape.append(("ow" if st["overwrite"] else "no") + ("E" if existed else "N") + ("p" if st.get("via") == "subprocess" else "c" if st.get("via") == "cli" else "a"))
             if existed and not st["overwrite"]:
                 ev.count("no_overwrite_on_existing")
                 if inner_before != inner_after:
